@@ -24,3 +24,17 @@ def always(case, mismatch):
 
 
 PREDICATES = {'zip_completed_with_queue': zip_completed_with_queue, 'always': always}
+
+
+def unicast_sub_after_terminal_with_backlog(case, mismatch):
+    """the mismatching step is a Subscribe on a unicast subject issued after a terminal, and values had been queued while nobody was subscribed"""
+    ops = case['ops']
+    k = mismatch['step']
+    if k < 0 or ops[k]['op'] not in ('sub', 'subU'):
+        return False
+    terminated = any(o['op'] in ('error', 'complete') for o in ops[:k])
+    queued = any(o['op'] == 'next' and not any(o['deliv']) for o in ops[:k])
+    return terminated and queued
+
+
+PREDICATES['unicast_sub_after_terminal_with_backlog'] = unicast_sub_after_terminal_with_backlog
